@@ -591,16 +591,7 @@ func ruleC18Stream(c *Ctx) {
 			continue
 		}
 		n++
-		v := call.Call.Args[0]
-		for i := 0; i < 3; i++ {
-			switch x := v.(type) {
-			case *ssa.MakeInterface:
-				v = x.X
-			case *ssa.ChangeInterface:
-				v = x.X
-			}
-		}
-		v = c.resolve(v)
+		v := c.writerOrigin(call.Call.Args[0])
 		p, isParam := v.(*ssa.Parameter)
 		key := "meter@" + fnName(call.Parent())
 		switch {
@@ -810,6 +801,10 @@ func ruleC18Lockset(c *Ctx) {
 				return ok && isPtrToNamed(fieldOfAddr(fa).Var.Type(), "time", "Ticker")
 			}
 			isLocal := func(v ssa.Value) bool {
+				if p, ok := v.(*ssa.Parameter); ok {
+					// the goroutine is a named function that was handed its ticker
+					return isPtrToNamed(p.Type(), "time", "Ticker")
+				}
 				u, ok := v.(*ssa.UnOp)
 				if !ok {
 					return false
